@@ -88,9 +88,9 @@ Proof.
   assert (0 <= IZR (k_unit K) * eps Rops) by (apply Rmult_le_pos; lra).
   assert (Hn : norm3 Rops (u0*th, u1*th, u2*th) = th).
   { c03_simpl. replace (_ + _ + _) with (th*th*(u0*u0 + u1*u1 + u2*u2)) by ring. apply sqrt_sq_scale; [lra | exact Hu]. }
-  unfold trexp_so3, rodrigues3, iszerovec3, unitvec_norm3. rewrite Hn. cbn [ltb Rops].
+  unfold trexp_so3, rodrigues3, iszerovec3, unitvec_norm3. rewrite Hn. cbn [ltb leb Rops].
   replace (Rltb th _) with false by (symmetry; apply Rltb_false; rewrite thv_R; nra).
-  replace (Rltb _ th) with true by (symmetry; apply Rltb_true; rewrite thv_R; lra).
+  replace (Rleb _ th) with true by (symmetry; apply Rleb_true; rewrite thv_R; lra).
   cbn [div Rops]. f_equal. f_equal. repeat apply f_equal2; field; lra.
 Qed.
 
@@ -500,10 +500,10 @@ Proof.
   assert (Hku : 0 <= IZR (k_unit K) * eps Rops) by (apply Rmult_le_pos; lra).
   assert (Hzu : IZR (k_zero K) * eps Rops <= IZR (k_unit K) * eps Rops) by (apply Rmult_le_compat_r; lra).
   assert (Hth0 : th <> 0) by (intro E; rewrite E, Rabs_R0 in Hth; lra).
-  unfold trexp2_so2, rodrigues1, iszerovec1, unitvec_norm1, norm1. cbn [mul sqrt_ ltb div Rops].
+  unfold trexp2_so2, rodrigues1, iszerovec1, unitvec_norm1, norm1. cbn [mul sqrt_ ltb leb div Rops].
   rewrite sqrt_sq_abs.
   replace (Rltb (Rabs th) _) with false by (symmetry; apply Rltb_false; rewrite thv_R; lra).
-  replace (Rltb _ (Rabs th)) with true by (symmetry; apply Rltb_true; rewrite thv_R; lra).
+  replace (Rleb _ (Rabs th)) with true by (symmetry; apply Rleb_true; rewrite thv_R; lra).
   f_equal. unfold rodrigues1_th. cbn [cos_ sin_ Rops].
   destruct (Rle_dec 0 th) as [P|N].
   - rewrite (Rabs_pos_eq th) by lra. replace (th/th) with 1 by (field; lra). rewrite Hc, Hs, E1, E2. c03_simpl. tuple_eq ltac:(ring).
@@ -646,4 +646,20 @@ Proof.
   f_equal.
   pose proof (mv33_scale_in (Vmat Rops (L0/th, L1/th, L2/th) th) th (v0,v1,v2)) as E. cbv beta iota zeta in E. rewrite E.
   rewrite <- Hv, <- mv33_mmul. unfold G. rewrite V_Ginv_inverse by (try assumption; lra). apply mv33_I.
+Qed.
+
+(* ---------------- totality of the so(3) exponential (fix 4dbd011: unitvec_norm tests n >= k_unit eps) ---------------- *)
+Theorem trexp_so3_total K (w : V3 R) :
+  thr_ok K -> IZR (k_unit K) <= IZR (k_zero K) -> exists Rm, trexp_so3 Rops K w = Ok Rm /\ SO3 Rm.
+Proof.
+  intros HK Hle. pose proof HK as (Kz & Kzu & _). pose proof eps_pos as He.
+  assert (exists Rm, trexp_so3 Rops K w = Ok Rm) as [Rm E].
+  { unfold trexp_so3, rodrigues3, iszerovec3. cbn [ltb Rops]. destruct (Rltb (norm3 Rops w) (thv Rops (k_zero K))) eqn:Z.
+    - eexists; reflexivity.
+    - apply Rltb_false in Z. unfold unitvec_norm3. cbv zeta. cbn [leb Rops].
+      replace (Rleb _ _) with true.
+      + destruct w as [[w0 w1] w2]. eexists; reflexivity.
+      + symmetry. apply Rleb_true. rewrite !thv_R in *.
+        assert (IZR (k_unit K) * eps Rops <= IZR (k_zero K) * eps Rops) by (apply Rmult_le_compat_r; lra). lra. }
+  exists Rm. split; [exact E | exact (trexp_so3_in_SO3 K w Rm HK E)].
 Qed.
